@@ -1,0 +1,93 @@
+//go:build verif
+
+package vgirpc
+
+import (
+	"net/http"
+	"net/http/httptest"
+	"time"
+)
+
+// Verification hooks for property C25 (proxy proofs). Add-only; compiled only
+// with -tags verif. Nothing here changes behaviour: the hooks expose the MAC
+// input framing, and publish the constants the Coq model is stated over — the
+// field regexps' source text, the version / length / capacity constants, the
+// replay TTL as a function of the skew, and the one answer a refused request
+// gets (probed from the real gate and the real 401 writer, never copied).
+
+// VerifProofCanonical exposes proofCanonicalString.
+func VerifProofCanonical(kid, ts, nonce, originID string) []byte {
+	return proofCanonicalString(kid, ts, nonce, originID)
+}
+
+// VerifProofReplayTTL exposes proofReplayTTL.
+func VerifProofReplayTTL(skewSeconds int) time.Duration { return proofReplayTTL(skewSeconds) }
+
+// verifProofRefusal probes the gate in require mode with a request that has no
+// proof header and returns what it answers, directly and through an HttpServer.
+func verifProofRefusal() (reason, detail string, status int, hdrReason, body string, ok int64) {
+	defer func() {
+		if recover() != nil {
+			ok = 0
+		}
+	}()
+	secret := make([]byte, proofSecretLen)
+	gate, err := ProofAuthenticate(ProofConfig{
+		Mode: ProofModeRequire, OriginID: "w", SkewSeconds: 1,
+		Secrets: map[string]ProofSecret{"k": {Secret: secret, Label: "k"}},
+	}, nil)
+	if err != nil {
+		return "", "", 0, "", "", 0
+	}
+	_, gerr := gate(httptest.NewRequest(http.MethodPost, "/x", nil))
+	var f *AuthFailure
+	if !asAuthFailure(gerr, &f) {
+		return "", "", 0, "", "", 0
+	}
+	h := NewHttpServer(NewServer())
+	h.SetAuthenticate(gate)
+	rec := httptest.NewRecorder()
+	h.ServeHTTP(rec, httptest.NewRequest(http.MethodPost, "/x", nil))
+	return string(f.Reason), f.Detail, rec.Code, rec.Header().Get(HeaderAuthReason), rec.Body.String(), 1
+}
+
+func init() {
+	verifConstProviders = append(verifConstProviders, func() []VerifConst {
+		reason, detail, status, hdrReason, body, ok := verifProofRefusal()
+		ttl0 := int64(proofReplayTTL(0))
+		ttl1 := int64(proofReplayTTL(1))
+		// linear in the skew? (checked on a few points; the model uses base + skew*step)
+		linear := int64(1)
+		for _, s := range []int{2, 3, 30, 300, 86400} {
+			if int64(proofReplayTTL(s)) != ttl0+int64(s)*(ttl1-ttl0) {
+				linear = 0
+			}
+		}
+		return []VerifConst{
+			verifBytes("c25_header", ProofHeader),
+			verifBytes("c25_version", proofVersion),
+			verifNum("c25_max_header_len", proofMaxHeaderLen),
+			verifNum("c25_secret_len", proofSecretLen),
+			verifBytes("c25_claims_key", proofClaimsKey),
+			verifBytes("c25_domain_prefix", string(proofDomainPrefix)),
+			verifBytes("c25_kid_re", proofKidRe.String()),
+			verifBytes("c25_ts_re", proofTsRe.String()),
+			verifBytes("c25_nonce_re", proofNonceRe.String()),
+			verifBytes("c25_origin_re", proofOriginRe.String()),
+			verifBytes("c25_mac_re", proofMacRe.String()),
+			verifNum("c25_default_capacity", defaultReplayCapacity),
+			verifNum("c25_ttl_base_ns", ttl0),
+			verifNum("c25_ttl_step_ns", ttl1-ttl0),
+			verifNum("c25_ttl_linear", linear),
+			verifBytes("c25_mode_off", string(ProofModeOff)),
+			verifBytes("c25_mode_allow", string(ProofModeAllow)),
+			verifBytes("c25_mode_require", string(ProofModeRequire)),
+			verifNum("c25_refusal_probe_ok", ok),
+			verifBytes("c25_refusal_reason", reason),
+			verifBytes("c25_refusal_detail", detail),
+			verifNum("c25_refusal_status", int64(status)),
+			verifBytes("c25_refusal_hdr_reason", hdrReason),
+			verifBytes("c25_refusal_body", body),
+		}
+	})
+}
